@@ -182,6 +182,9 @@ class Impl:
         elif o == 'set_origin':
             self.objs[s['obj']].origin_reference = specgen.to_py(s['raw'], self.objs)
             return None
+        elif o == 'set_label':
+            setattr(self.df.storage_unit_label, {'vrl': 'max_record_length', 'ident': 'set_identifier', 'seq': 'sequence_number'}[s['field']], s['value'])
+            return None
         elif o == 'set_header':
             setattr(lf.file_header, 'header_id' if s['field'] == 'id' else 'sequence_number', specgen.to_py(s['raw'], self.objs))
             return None
@@ -261,6 +264,9 @@ def program_trees(program, outs):
             trees.append([5, idxmap.get(s['obj'], 10**6), A[tkey]['attr_order'].index(s['attr']), s['part'] == 'units', raw_tree(s['raw'], idxmap)])
         elif o == 'set_origin':
             trees.append([11, idxmap.get(s['obj'], 10**6), raw_tree(s['raw'], idxmap)])
+        elif o == 'set_label':
+            sul = dict(sul, **{s['field']: s['value']})       # reaches the model with the next write
+            trees.append([13])
         elif o == 'set_header':
             trees.append([12, s['lf'], s['field'] == 'id', raw_tree(s['raw'], idxmap)])
         elif o == 'nofmt':
